@@ -151,6 +151,7 @@ class Scaler(Transformer):
         self._verify_input(X, "X")
 
         params = self.get_params()
+        X_in = X
 
         if params["with_center"]:
             X = X - self.mean_
@@ -160,6 +161,16 @@ class Scaler(Transformer):
             X = X * self.coslat_weights_
 
         X = X * self.weights_
+
+        # Scaling must not add dimensions: a Dataset variable lacking a dimension seen
+        # at fit would otherwise be silently broadcast against the fitted parameters
+        if isinstance(X_in, xr.Dataset):
+            for var in X_in.data_vars:
+                new_dims = set(X[var].dims) - set(X_in[var].dims)
+                if new_dims:
+                    raise ValueError(
+                        f"Cannot transform data. Dimensions {new_dims} of variable '{var}' are missing."
+                    )
         return X
 
     def fit_transform(
